@@ -23,7 +23,10 @@ ib_t B;
 #ifndef SZ
 #define SZ 4
 #endif
-#define MAXS (4 * SZ)
+#ifndef GROWX
+#define GROWX 4          /* put distances < GROWX*SZ: 4 = the ring may double or quadruple, 2 = at most double */
+#endif
+#define MAXS (GROWX * SZ)
 static u8 objs[MAXS + 4];
 #define NEWOBJ (&objs[MAXS])
 #define JUNK (&objs[MAXS + 1])
